@@ -149,8 +149,8 @@ func (g *Gen) Next(t *rapid.T) *Op {
 	add("obsReg", len(m.Obs) > 0)
 	add("emit", true)
 	add("res", true)
-	add("qOpen", g.P.OpenQ && nLive > 0 && m.OpenQ < g.P.MaxOpenQ)
-	add("qNext", g.P.OpenQ && len(m.Open) > 0) // open queries, or finished ones (Next on a finished query)
+	add("qOpen", g.P.OpenQ && nLive > 0 && (m.OpenQ < g.P.MaxOpenQ || m.OpenQ == 64)) // at 64: the attempt to open a 65th (must panic, nothing changes)
+	add("qNext", g.P.OpenQ && len(m.Open) > 0)                                        // open queries, or finished ones (Next on a finished query)
 	add("qClose", g.P.OpenQ && len(m.Open) > 0)
 	add("scenario", !locked && room && len(m.Filters) < 8)
 	add("misuse", g.P.Misuse)
@@ -177,6 +177,17 @@ func (g *Gen) Next(t *rapid.T) *Op {
 	if g.P.Bulk > 0 && g.It.Step == 0 && !g.bulkDrawn {
 		g.bulkDrawn = true
 		if v := rapid.IntRange(0, 99).Draw(t, "bulk"); v >= 40 && v < 40+g.P.Bulk { // (rapid favours the ends of a range)
+			if rapid.IntRange(0, 2).Draw(t, "bulkRelation") == 0 {
+				op := &Op{K: "bulk", Sub: "rel", Comps: []int{rapid.SampledFrom(listOf(comps.RelMask)).Draw(t, "bulkRel")},
+					N: rapid.SampledFrom([]int{15, 16, 17, 33, 64, 65, 127, 128, 129, 140}).Draw(t, "bulkTargets")}
+				if rapid.IntRange(0, 2).Draw(t, "bulkBatchRemoval") == 0 {
+					op.Mode = 1
+					op.N = rapid.SampledFrom([]int{16, 17, 128, 255, 256, 257, 300}).Draw(t, "bulkTargets")
+				} else if g.P.Bulk >= 15 || rapid.Bool().Draw(t, "thenShrink") {
+					g.queue = append(g.queue, &Op{K: "shrink"})
+				}
+				return op
+			}
 			return &Op{K: "bulk", N: rapid.SampledFrom([]int{100, 127, 128, 129, 140, 255, 256, 257, 300}).Draw(t, "bulkArchetypes"), Mode: rapid.IntRange(0, 999).Draw(t, "bulkSeed")}
 		}
 	}
@@ -197,7 +208,7 @@ func (g *Gen) Next(t *rapid.T) *Op {
 			return &Op{K: "reset"}
 		}
 	}
-	if g.burst > 0 && g.P.OpenQ && nLive > 0 && m.OpenQ < g.P.MaxOpenQ {
+	if g.burst > 0 && g.P.OpenQ && nLive > 0 && (m.OpenQ < g.P.MaxOpenQ || m.OpenQ == 64) {
 		g.burst--
 		op := g.genQuery(t)
 		op.K = "qOpen"
@@ -860,7 +871,7 @@ func (g *Gen) genFilter(t *rapid.T) *Op {
 				fs.Rels = append(fs.Rels, RelSpec{C: c, T: g.pickTarget(t), S: rapid.IntRange(0, 2).Draw(t, "relStyle")})
 			}
 		}
-		return &Op{K: "filterNew", FS: fs}
+		return g.chainRels(t, &Op{K: "filterNew", FS: fs})
 	}
 	if rapid.IntRange(0, 5).Draw(t, "unsafeFilter") == 0 {
 		fs.Inst = -1
@@ -892,7 +903,7 @@ func (g *Gen) genFilter(t *rapid.T) *Op {
 			}
 		}
 	}
-	return &Op{K: "filterNew", FS: fs}
+	return g.chainRels(t, &Op{K: "filterNew", FS: fs})
 }
 
 func (g *Gen) genFilterReg(t *rapid.T) *Op {
@@ -908,7 +919,11 @@ func (g *Gen) genFilterReg(t *rapid.T) *Op {
 	if m.Filters[fi].Registered {
 		mode = 0
 	}
-	return &Op{K: "filterReg", F: fi, Mode: mode}
+	op := &Op{K: "filterReg", F: fi, Mode: mode}
+	if rapid.IntRange(0, 19).Draw(t, "registrationCycles") == 10 {
+		op.N = rapid.SampledFrom([]int{15, 16, 17, 127, 128, 129, 255, 256, 257, 300}).Draw(t, "cycles")
+	}
+	return op
 }
 
 // qrels draws per-query relation targets for relation components of the filter that are not fixed.
@@ -1188,7 +1203,11 @@ func (g *Gen) genObsReg(t *rapid.T) *Op {
 			}
 		}
 	}
-	return &Op{K: "obsReg", Q: j, Mode: mode}
+	op := &Op{K: "obsReg", Q: j, Mode: mode}
+	if rapid.IntRange(0, 19).Draw(t, "registrationCycles") == 10 {
+		op.N = rapid.SampledFrom([]int{15, 16, 17, 31, 32, 33, 63, 64, 65, 66, 129, 140}).Draw(t, "cycles")
+	}
+	return op
 }
 
 func (g *Gen) genEmit(t *rapid.T) *Op {
@@ -1617,4 +1636,12 @@ func (g *Gen) bulkShift() int {
 		return 1
 	}
 	return 0
+}
+
+// chainRels decides whether a filter with two or more fixed targets gets them in chained Relations() calls.
+func (g *Gen) chainRels(t *rapid.T, op *Op) *Op {
+	if len(op.FS.Rels) >= 2 && op.FS.Inst >= 0 {
+		op.FS.Chain = rapid.Bool().Draw(t, "chainedRelations")
+	}
+	return op
 }
